@@ -16,11 +16,13 @@ def cfg_text(name, over=None):
 
 
 def mc_replay(ctx, cfgname, over=None, label=None, driver="kernel", module="KernelMC", limit=None,
-              required=("Pop", "NextCb", "EndStep", "ProcStep", "TopStep"), timeout=3400, wrap=None):
+              required=(), timeout=3400, wrap=None):
     """Exhaustive run of the kernel spec over all programs within the bounds; every emitted program is executed
     on the real kernel and its log compared with the log the specification predicts (spec -> code)."""
+    # -coverage is switched off for the kernel spec: with its large CASE expressions TLC's coverage bookkeeping makes
+    # the run orders of magnitude slower; vacuity is judged from the emitted logs instead (classify()).
     r = ctx.mc(module, cfg_text(cfgname, over), "kernel", required_actions=required,
-               label=label or "%s/%s" % (module, cfgname), timeout=timeout)
+               label=label or "%s/%s" % (module, cfgname), timeout=timeout, coverage=False)
     progs = {}
     for w in r.emitted():
         progs.setdefault(json.dumps(w["script"], sort_keys=True), w)
